@@ -11,6 +11,8 @@
 // Every vector is executed on ONE MerkleProver per build mode: all keys of a dictionary vector are asked from the same
 // prover in the given order, all cursor sessions of a script are opened on the same prover (sessions may interleave).
 // The recording is one trace segment per prover: Reset (= NewMerkleProver), then one event per request / cursor call.
+// A vector with "srcboc" (hex of an earlier proof) and "orig" (the level-0 tree that proof is about) is a two-step proof:
+// the prover's source is the tree under the earlier proof (build mode "proof").
 //
 // modes: how the tree handed to the prover is made from the table
 //
@@ -64,6 +66,10 @@ type Vector struct {
 	// ExpHash: per Create, the hash of the proof the generator expects under the occurrence reading of Prune (passed through)
 	ExpHash []string `json:"exphash"`
 	Modes   []string `json:"modes"`
+	// Two-step proofs: SrcBoc is the bag of an earlier proof of the level-0 tree Orig; the source handed to the prover is
+	// the tree under that proof (its Merkle-proof root's only child): a partial view with pruned branches. Cells is ignored.
+	Orig   []cells.C `json:"orig"`
+	SrcBoc string    `json:"srcboc"`
 }
 
 var DictModes = []string{"tree", "dag", "boc"}
@@ -127,14 +133,41 @@ func safely(f func() error) (p string, err error) {
 
 var emptyTable = ev.M{"cells": []int{}, "roots": []int{}}
 
-func reset(w *ev.Writer, root *boc.Cell, kind, src, mode string, vec, n int) {
+// twoStep is what a Reset line says about a source that is the tree under an earlier proof.
+type twoStep struct {
+	orig   []cells.C
+	srcBoc string
+}
+
+func reset(w *ev.Writer, root *boc.Cell, kind, src, mode string, vec, n int, ts *twoStep) {
 	t := cells.Project([]*boc.Cell{root})
-	w.Emit(ev.M{"k": "Reset", "kind": kind, "src": src, "mode": mode, "vec": vec, "n": n, "cells": t.Cells, "roots": t.Roots})
+	m := ev.M{"k": "Reset", "kind": kind, "src": src, "mode": mode, "vec": vec, "n": n, "cells": t.Cells, "roots": t.Roots}
+	if ts != nil {
+		m["orig"] = ev.M{"cells": ts.orig, "roots": []int{0}}
+		m["srcboc"] = ts.srcBoc
+	}
+	w.Emit(m)
+}
+
+// underProof parses the bag of a proof and returns the tree under its Merkle-proof root.
+func underProof(hexBag string) (*boc.Cell, error) {
+	b, err := hex.DecodeString(hexBag)
+	if err != nil {
+		return nil, err
+	}
+	roots, err := boc.DeserializeBoc(b)
+	if err != nil {
+		return nil, err
+	}
+	if len(roots) != 1 || roots[0].CellType() != boc.MerkleProofCell || len(roots[0].Refs()) != 1 {
+		return nil, fmt.Errorf("not a Merkle proof bag")
+	}
+	return roots[0].Refs()[0], nil
 }
 
 // proveKeys asks ONE prover for a proof of every key, in order; one segment: Reset, then a Key event per request.
-func proveKeys(w *ev.Writer, root *boc.Cell, n int, keys []string, src, mode string, vec int, exp []Exp) {
-	reset(w, root, "dict", src, mode, vec, n)
+func proveKeys(w *ev.Writer, root *boc.Cell, n int, keys []string, src, mode string, vec int, exp []Exp, ts *twoStep) (proofs []string) {
+	reset(w, root, "dict", src, mode, vec, n, ts)
 	var prover *boc.MerkleProver
 	p, err := safely(func() error {
 		var e error
@@ -170,16 +203,18 @@ func proveKeys(w *ev.Writer, root *boc.Cell, n int, keys []string, src, mode str
 			q["val"] = ev.M{"cells": vt.Cells, "roots": vt.Roots}
 			q["proof"] = hex.EncodeToString(proof)
 		}
+		proofs = append(proofs, fmt.Sprint(q["proof"]))
 		if len(exp) == len(keys) {
 			q["exp"] = exp[i]
 		}
 		w.Emit(q)
 	}
+	return proofs
 }
 
 // runScript replays cursor calls on ONE prover; one segment: Reset, then one event per call.
-func runScript(w *ev.Writer, root *boc.Cell, script []Step, expHash []string, src, mode string, vec int) {
-	reset(w, root, "walk", src, mode, vec, 0)
+func runScript(w *ev.Writer, root *boc.Cell, script []Step, expHash []string, src, mode string, vec int, ts *twoStep) (proofs []string) {
+	reset(w, root, "walk", src, mode, vec, 0, ts)
 	var prover *boc.MerkleProver
 	p, err := safely(func() error {
 		var e error
@@ -227,15 +262,38 @@ func runScript(w *ev.Writer, root *boc.Cell, script []Step, expHash []string, sr
 				m["exphash"] = expHash[creates]
 			}
 			creates++
+			proofs = append(proofs, fmt.Sprint(m["proof"]))
 		} else if p != "" || err != nil {
 			w.Emit(ev.M{"k": "Panic", "op": st.K, "panic": p, "msg": fmt.Sprint(err)})
 			return
 		}
 		w.Emit(m)
 	}
+	return proofs
 }
 
 func run(w *ev.Writer, v *Vector) error {
+	if v.SrcBoc != "" {
+		root, err := underProof(v.SrcBoc)
+		if err != nil {
+			return fmt.Errorf("vector %d: cannot open the first proof: %v", v.Vec, err)
+		}
+		for i := range v.Orig {
+			if v.Orig[i].R == nil {
+				v.Orig[i].R = []int{}
+			}
+		}
+		ts := &twoStep{orig: v.Orig, srcBoc: v.SrcBoc}
+		switch v.T {
+		case "dict":
+			proveKeys(w, root, v.N, v.Keys, v.Src, "proof", v.Vec, v.Exp, ts)
+		case "walk":
+			runScript(w, root, v.Script, v.ExpHash, v.Src, "proof", v.Vec, ts)
+		default:
+			return fmt.Errorf("vector %d: unknown kind %q", v.Vec, v.T)
+		}
+		return nil
+	}
 	modes := v.Modes
 	if len(modes) == 0 {
 		modes = DictModes
@@ -256,9 +314,9 @@ func run(w *ev.Writer, v *Vector) error {
 		}
 		switch v.T {
 		case "dict":
-			proveKeys(w, root, v.N, v.Keys, v.Src, mode, v.Vec, v.Exp)
+			proveKeys(w, root, v.N, v.Keys, v.Src, mode, v.Vec, v.Exp, nil)
 		case "walk":
-			runScript(w, root, v.Script, v.ExpHash, v.Src, mode, v.Vec)
+			runScript(w, root, v.Script, v.ExpHash, v.Src, mode, v.Vec, nil)
 		default:
 			return fmt.Errorf("vector %d: unknown kind %q", v.Vec, v.T)
 		}
@@ -422,6 +480,74 @@ func valueRefLikeSibling(t *cells.Table, meta []rowMeta) []string {
 		}
 	}
 	return keys
+}
+
+func isLeafKey(meta []rowMeta, k string) bool {
+	for _, m := range meta {
+		if m.kind == 'L' && m.key == k {
+			return true
+		}
+	}
+	return false
+}
+
+// keepPaths returns the positions to prune so that exactly the paths of the keys in keep survive: the topmost rows
+// under which none of them lies.
+func keepPaths(t *cells.Table, meta []rowMeta, keep map[string]bool) [][]int {
+	has := make([]int, len(t.Cells)) // 0 unknown, 1 no, 2 yes
+	var under func(row int) bool
+	under = func(row int) bool {
+		if has[row] != 0 {
+			return has[row] == 2
+		}
+		r := false
+		switch meta[row].kind {
+		case 'L':
+			r = keep[meta[row].key]
+		case 'F':
+			for _, c := range t.Cells[row].R {
+				if under(c) {
+					r = true
+				}
+			}
+		}
+		has[row] = 1
+		if r {
+			has[row] = 2
+		}
+		return r
+	}
+	var out [][]int
+	var walk func(row int, path []int)
+	walk = func(row int, path []int) {
+		if !under(row) {
+			out = append(out, append([]int{}, path...))
+			return
+		}
+		if meta[row].kind != 'F' {
+			return
+		}
+		for i, c := range t.Cells[row].R {
+			walk(c, append(path, i))
+		}
+	}
+	walk(t.Roots[0], nil)
+	return out
+}
+
+// pruneScript is one cursor session that prunes the given positions.
+func pruneScript(paths [][]int) []Step {
+	out := []Step{{K: "Cursor", C: 1}}
+	for _, p := range paths {
+		for _, i := range p {
+			out = append(out, Step{K: "Ref", C: 1, I: i})
+		}
+		out = append(out, Step{K: "Prune", C: 1})
+		for range p {
+			out = append(out, Step{K: "Up", C: 1})
+		}
+	}
+	return append(out, Step{K: "Create", C: 1})
 }
 
 func randBits(rng *rand.Rand, n int) string {
@@ -674,9 +800,19 @@ func Drive(w *ev.Writer, o Opts) {
 				continue
 			}
 			root := hm.Refs()[0]
-			proveKeys(w, root, n, keys, src+":lib", "lib", vec, nil)
+			proofs := proveKeys(w, root, n, keys, src+":lib", "lib", vec, nil, nil)
 			if back, e := viaBoc(root); e == nil {
-				proveKeys(w, back, n, keys, src+":lib", "boc", vec, nil)
+				proveKeys(w, back, n, keys, src+":lib", "boc", vec, nil, nil)
+			}
+			// two-step: the proof of the first key is narrowed down again from the dictionary under it (every sibling on
+			// the path is a pruned branch already and is pruned again); the other keys run into pruned branches
+			if len(proofs) > 0 && proofs[0] != "" {
+				vec++
+				orig := cells.Project([]*boc.Cell{root})
+				v := &Vector{T: "dict", Vec: vec, Src: src + ":lib:two-step", N: n, Orig: orig.Cells, SrcBoc: proofs[0], Keys: append([]string{keys[0], keys[0]}, keys[1:]...)}
+				if err := run(w, v); err != nil {
+					panic(err)
+				}
 			}
 			continue
 		}
@@ -700,6 +836,31 @@ func Drive(w *ev.Writer, o Opts) {
 		v := &Vector{T: "dict", Vec: vec, Src: src, N: n, Cells: tab.Cells, Roots: tab.Roots, Keys: keys}
 		if err := run(w, v); err != nil {
 			panic(err)
+		}
+		// two-step: a proof that keeps 1..3 of the keys (made with the cursor API from the table's structure), then the
+		// dictionary under it is proven further, key by key, by one prover
+		keep := map[string]bool{}
+		var keepList []string
+		for _, k := range keys {
+			if len(keepList) < 1+rng.Intn(3) && isLeafKey(meta, k) && !keep[k] {
+				keep[k] = true
+				keepList = append(keepList, k)
+			}
+		}
+		if len(keepList) > 0 {
+			vec++
+			root, err := build(tab, "tree")
+			if err != nil {
+				panic(err)
+			}
+			first := runScript(w, root, pruneScript(keepPaths(tab, meta, keep)), nil, src+":keep-keys", "tree", vec, nil)
+			if len(first) == 1 && first[0] != "" {
+				vec++
+				v2 := &Vector{T: "dict", Vec: vec, Src: src + ":two-step", N: n, Orig: tab.Cells, SrcBoc: first[0], Keys: append(append([]string{}, keepList...), keys...)}
+				if err := run(w, v2); err != nil {
+					panic(err)
+				}
+			}
 		}
 	}
 	for i := 0; i < nwalk; i++ {
@@ -731,7 +892,7 @@ func Drive(w *ev.Writer, o Opts) {
 		}
 		// one prover serves several cursor sessions: sequential ones, sometimes two interleaved; one session that prunes
 		// nothing always comes after a session that pruned
-		session := func(c int, empty bool) []Step {
+		sessionOn := func(tab *cells.Table, c int, empty bool) []Step {
 			out := []Step{{K: "Cursor", C: c}}
 			if !empty {
 				path := []int{tab.Roots[0]}
@@ -760,6 +921,7 @@ func Drive(w *ev.Writer, o Opts) {
 			}
 			return append(out, Step{K: "Create", C: c})
 		}
+		session := func(c int, empty bool) []Step { return sessionOn(tab, c, empty) }
 		var script []Step
 		nreq := 2 + rng.Intn(3)
 		emptyAt := 1 + rng.Intn(nreq-1)
@@ -783,6 +945,33 @@ func Drive(w *ev.Writer, o Opts) {
 		v := &Vector{T: "walk", Vec: vec, Src: "rand", Cells: tab.Cells, Roots: tab.Roots, Script: script}
 		if err := run(w, v); err != nil {
 			panic(err)
+		}
+		// two-step (every second tree): a first proof with a random prune set, then the tree under it - with its pruned
+		// branches, root of level 1 - is the source of a new prover that serves 2..3 sessions of its own
+		if i%2 == 0 {
+			vec++
+			root, err := build(tab, "tree")
+			if err != nil {
+				panic(err)
+			}
+			first := runScript(w, root, sessionOn(tab, 1, false), nil, "rand:first-step", "tree", vec, nil)
+			if len(first) != 1 || first[0] == "" {
+				continue
+			}
+			under, err := underProof(first[0])
+			if err != nil {
+				continue // the first proof is judged in its own segment
+			}
+			st := cells.Project([]*boc.Cell{under})
+			var script2 []Step
+			for c := 1; c <= 2+rng.Intn(2); c++ {
+				script2 = append(script2, sessionOn(st, c, c == 2 && rng.Intn(2) == 0)...)
+			}
+			vec++
+			v2 := &Vector{T: "walk", Vec: vec, Src: "rand:two-step", Orig: tab.Cells, SrcBoc: first[0], Script: script2}
+			if err := run(w, v2); err != nil {
+				panic(err)
+			}
 		}
 	}
 	w.Emit(ev.M{"k": "End", "events": w.N})
